@@ -693,6 +693,17 @@ func (g *frameGen) next(h *fwdHist, r *tr.Rand) [][]byte {
 			}
 		}
 	}
+	// packets at and just below the largest size a cache slot holds (BufSize =
+	// 1504): every buffer on the way (the cache slot, gotNACK's scratch buffer,
+	// the rewrite buffer) must take them whole
+	if r.Chance(1, 30) && len(out) > 0 {
+		i := r.Intn(len(out))
+		want := []int{1500, 1501, 1503, 1504}[r.Intn(4)]
+		if n := want - len(out[i]); n > 0 {
+			out[i] = append(out[i], r.Bytes(n)...)
+			h.t.Note("packet-of-maximal-size")
+		}
+	}
 	g.frame++
 	g.pid++
 	g.ts += 3000
